@@ -275,22 +275,30 @@ Definition run_top (sc : script) (m : mst) : mst := run_top_aux sc [] m.
 Definition cur0 : cur := mkCur 0 0 0 false.
 Definition cursor_block : Z := 2.
 
-Fixpoint run_calls (cs : list callname) (o : opts) (det : flags) (m : mst) : mst :=
+(* [fails]: reportWinsize returns an error (New then closes what it started and returns the error) *)
+Fixpoint run_calls_f (fails : bool) (cs : list callname) (o : opts) (det : flags) (m : mst) : mst :=
   match cs with
   | [] => m
   | c :: r =>
-      run_calls r o det
-        match c with
-        | CnOpenTty => set_parser true (set_w true [] (s_out m) m)      (* newWriter, ansi.NewParser *)
-        | CnSendQueries =>                                                 (* then New's reply loop stores what was detected *)
-            set_fl (with_nomouse (o_nomouse o) det) (run_top send_queries m)
-        | CnApplyQuirks => set_fl (apply_quirks o (s_fl m)) m
-        | CnEnterAlt => run_leaf enter_alt m
-        | CnEnableModes => run_leaf enable_modes m
-        | CnSuspend => run_top suspend_script m
-        | CnSetupSignals | CnReportWinsize | CnConsoleClose | CnPostQuit => m
-        end
+      match c with
+      | CnCloseIfFailed =>
+          if fails then run_top suspend_script m      (* vx.Close(): Suspend, console.Close; then return *)
+          else run_calls_f fails r o det m
+      | _ =>
+        run_calls_f fails r o det
+          match c with
+          | CnOpenTty => set_parser true (set_w true [] (s_out m) m)      (* newWriter, ansi.NewParser *)
+          | CnSendQueries =>                                                 (* then New's reply loop stores what was detected *)
+              set_fl (with_nomouse (o_nomouse o) det) (run_top send_queries m)
+          | CnApplyQuirks => set_fl (apply_quirks o (s_fl m)) m
+          | CnEnterAlt => run_leaf enter_alt m
+          | CnEnableModes => run_leaf enable_modes m
+          | CnSuspend => run_top suspend_script m
+          | CnSetupSignals | CnReportWinsize | CnConsoleClose | CnPostQuit | CnCloseIfFailed => m
+          end
+      end
   end.
+Definition run_calls := run_calls_f false.
 
 Definition new_state (o : opts) (d : data) : mst :=
   mkM (flags0 (o_nomouse o)) d cur0 cur0 false false [] [] false false.
@@ -299,6 +307,10 @@ Definition new_state (o : opts) (d : data) : mst :=
 Definition startup (o : opts) (det : flags) (d : data) : mst :=
   let m := run_calls new_calls o det (new_state o d) in
   set_next (mkCur (c_row (s_next m)) (c_col (s_next m)) cursor_block (c_vis (s_next m))) m.
+
+(* vaxis.New when reportWinsize fails: everything New wrote before it returned the error *)
+Definition failed_new (o : opts) (det : flags) (d : data) : mst :=
+  run_calls_f true new_calls o det (new_state o d).
 
 (* ---------- render (cells of a small vocabulary) ---------- *)
 (* a cell: cs_g = 0 is the zero Cell{} grapheme (""), otherwise one printable ASCII rune of
@@ -546,3 +558,21 @@ Definition c04_session_violations (l : list c04case) : list Z := bad_indices (fu
 (* cases under the guard of the recorded finding (Suspend / Close while suspended never returns) *)
 Definition c04_session_known (l : list c04case) : list Z :=
   bad_indices (fun c => hits_suspended_shutdown (k_ops c) false false) l.
+
+(* ---------- second stream: New fails after start-up (reportWinsize returns an error) ---------- *)
+Record c04fail := mkFail {
+  q_opts : opts; q_det : flags; q_mask : Z; q_report : bool; q_appid : list Z; q_ustyle : Z;
+  q_honours_inband : bool; q_kitty0 : list Z;
+  q_obs : list seg }.                       (* everything written before New returned the error *)
+
+Definition fail_data (c : c04fail) : data := mkData (kitty_flags (q_mask c) (q_report c)) (q_appid c) (q_ustyle c).
+Definition fail_t0 (c : c04fail) : term := fresh_term [] (q_kitty0 c) (q_ustyle c) (q_appid c) (q_honours_inband c).
+
+Definition fail_agrees (c : c04fail) : bool :=
+  let out := s_out (failed_new (q_opts c) (q_det c) (fail_data c)) in
+  zlist_eqb (toks_bytes out) (segs_bytes (q_obs c))
+  && term_eqb (sem_toks out (fail_t0 c)) (binterp (q_obs c) (fail_t0 c)).
+Definition fail_holds (c : c04fail) : bool := restored (fail_t0 c) (binterp (q_obs c) (fail_t0 c)).
+
+Definition c04_newfail_mismatches (l : list c04fail) : list Z := bad_indices (fun c => negb (fail_agrees c)) l.
+Definition c04_newfail_violations (l : list c04fail) : list Z := bad_indices (fun c => negb (fail_holds c)) l.
